@@ -113,7 +113,7 @@ func Harness_C02_q_inductive_step() {
 	// L1: the invariant is preserved
 	if ctrl.step == PairStepVerifyResponse {
 		verif.Assert(pre == PairStepVerifyResponse && ctrl.session.EncryptionKey == keyBefore,
-			"step-verify-response-only-with-a-verified-proof")
+			"inv:step-verify-response-only-with-a-verified-proof")
 	}
 	verif.Reach("end")
 }
@@ -133,6 +133,6 @@ func Harness_C02_q_honest_verify_establishes_invariant() {
 	out, err = ctrl.Handle(ppTLV(TagSequence, byte(3), TagPublicKey, A, TagProof, M1))
 	verif.Assert(err == nil && out != nil && out.GetByte(TagErrCode) == 0, "honest-proof-accepted")
 	want, _ := hkdf.Sha512(K, []byte("Pair-Setup-Encrypt-Salt"), []byte("Pair-Setup-Encrypt-Info"))
-	verif.Assert(ctrl.step == PairStepVerifyResponse && ctrl.session.EncryptionKey == want, "invariant-established")
+	verif.Assert(ctrl.step == PairStepVerifyResponse && ctrl.session.EncryptionKey == want, "inv:invariant-established")
 	verif.Reach("end")
 }
